@@ -17,7 +17,8 @@ RULE = ("grid leg: representative bin tables (one per class) with n<=4 bins x EV
         "permutation of a data frame, dict input, every composition into ordered chunks with an empty chunk at every gap, "
         "chunks as frame or dict; array leg: dense-array loader over every upper pattern n<=3 and structured n=4..6 x chunksize "
         "1..n+1 x garbage below the diagonal; storage leg: count dtype x extra columns x HDF5 filter options; meta leg: JSON "
-        "documents x assembly names. Oracle: the input itself (pixels()[:] lists exactly the input records once each in order; "
+        "documents x assembly names; samepath leg: every stored-cell subset (ordered so that equal sizes are adjacent) created one after the "
+        "other at the SAME URI in one process. Oracle: the input itself (pixels()[:] lists exactly the input records once each in order; "
         "matrix(balance=False) dense and sparse == symmetric completion / stored matrix; info returns metadata and assembly), "
         "plus schema validator V on every file. Non-trivial: >=1 pixel stored. Distinct by construction.")
 BOUNDS = {"quick": "grid: BTrep(3,4) tables, all upper patterns n<=4 on 2 tables per n (others: structured), all square patterns n<=3 on 1 table per n; forms: 16 base points",
@@ -56,6 +57,11 @@ def units(tier):
                 yield {"leg": "grid-s5", "k": k, "symm": symm}
     for b in range(40 if th else 16):
         yield {"leg": "forms", "b": b}
+    # histories: many different matrices written one after the other to the SAME path in one process (state carried between
+    # creations - caches, leftovers of the previous collection - must not leak into what is read back)
+    for n, symm in ((3, True), (2, False), (3, False) if th else (2, True)):
+        for dest in ("root", "group"):
+            yield {"leg": "samepath", "n": n, "symm": symm, "dest": dest}
     for n in (1, 2, 3):
         yield {"leg": "array", "n": n, "fam": "all"}
     for n in (4, 5, 6):
@@ -404,8 +410,46 @@ def _meta(R, b, only):
     R.sample({"leg": "meta", "metadata": [repr(m) for m in METADATA[:6]], "assemblies": ASSEMBLIES})
 
 
+def _samepath(R, unit, only):
+    n, symm, dest = unit["n"], unit["symm"], unit["dest"]
+    table = ((2,) * ((n + 1) // 2),) + (((2,) * (n - (n + 1) // 2),) if n > 1 else ())
+    bins = alpha.table_bins(table, "chr")
+    pats = sorted(range(alpha.npatterns(n, symm)), key=lambda p: (bin(p).count("1"), p))     # equal nnz next to each other
+    if len(pats) > 128:
+        pats = pats[::4]
+    p = scratch.fresh()
+    uri = p if dest == "root" else p + "::/grp/sub"
+    R.sample({"leg": "samepath", "n": n, "symm": symm, "dest": dest, "sequence": "all stored-cell subsets ordered by (size, index), each created at the same URI"})
+    try:
+        for q, pat in enumerate(pats):
+            inner = {"step": q, "pat": pat}
+            if only is not None and only.get("step", -1) < q:
+                break
+            cells = alpha.pattern_cells(n, symm, pat)
+            pix = _mkpix(n, cells)
+            R.order = (R.order[0], q)
+            R.ev(1, 1 if q else 0)
+            R.add("states")
+            R.add("transitions", 4)
+            R.cls("form:samepath")
+            R.cls("mode:" + ("symm" if symm else "square"))
+            try:
+                build.create(uri, bins, {k: v["count"] for k, v in pix.items()}, symm, mode="w" if (dest == "root" or q == 0) else "a")
+            except Exception as e:
+                R.mismatch("create-raises:" + type(e).__name__, inner, f"{e!s:.300}")
+                break
+            if not readback(R, inner, p, bins, pix, symm, uri=None if dest == "root" else uri):
+                break
+        R.add("traces")
+    finally:
+        scratch.rm(p)
+
+
 def run(unit, R, tier, only=None):
     leg = unit["leg"]
+    if leg == "samepath":
+        _samepath(R, unit, only)
+        return
     if leg == "grid":
         t = _tables(4)[unit["t"]]
         n = alpha.table_nbins(t)
